@@ -261,7 +261,9 @@ into lines, so the line-wise clauses of C06/C07/C12/C13 cannot be evaluated on i
 line-count theorems need `Unbordered` for the same reason, see Model/OpsStructure.lean).  The
 correspondence check still covers these separators exactly. -/
 def bordered (s : List Int) : Bool :=
-  (List.range s.length).any fun k => k > 0 && s.take k == s.drop (s.length - k)
+  ((List.range s.length).any fun k => k > 0 && s.take k == s.drop (s.length - k)) ||
+  -- a separator made of spaces only cannot be told from padding either
+  (!s.isEmpty && s.all (· == 0x20))
 
 /-- per-step layout checks for property `pid` -/
 def layoutStep (pid : String) (a : List String) (src : Obs) (res : Obs) : String :=
